@@ -91,13 +91,22 @@ def _b(text, ref):
                          "correspondence with the real broker on a deterministic executor"}
 
 CLAIMS["C02"] = _b(
-    "Machine-checked proofs (Lean 4) of the decision logic of every step in a call's life, for every broker state: InvalidService for "
-    "a dead cookie (no_service); the owner's reply is forwarded once with the caller's serial and the owner's result and clears the "
-    "pending entry (owner_reply_forwarded), so duplicates are unknown and ignored (unknown_reply_ignored); non-owner replies are ignored "
-    "(foreign_reply_ignored); an abort marks the call and answers Aborted once (abort_answers_once, abort_twice_silent) and the later "
-    "reply is dropped (reply_after_abort_is_dropped). The exactly-once statement over whole interleavings with destroy/disconnect is "
-    "decided by the correspondence runs (overlapping calls, serial reuse, aborts, destruction, all four disconnect modes, mixed "
-    "versions): partial on the history-level clause.", "DESIGN.md section 6 C02")
+    "Machine-checked proofs (Lean 4). For ALL histories of the broker model, from any state: for a connection c that is still served "
+    "and a caller serial n, replies with serial n put into c's queue + (1 if a call (c, n) is pending) = (1 if one was pending at the "
+    "start) + calls (c, n) taken (call_replies_balance; no invariant assumed), hence never more replies than calls whatever owners, "
+    "other connections and c itself do (replies_never_exceed_calls), and for a caller that reuses a serial only after its call was "
+    "answered replies + pending = calls: exactly one reply per call (well_behaved_caller_exactly_once; serial reuse after a reply or an "
+    "abort covered). For ALL reachable states (fewer than 2^32 calls pending at a time), by a cross-reference invariant of the "
+    "per-connection call tables, function_calls and the two deferred lists: an entry n -> bs of c is the pending, not aborted call bs "
+    "of (c, n) and every not aborted call is in the table of its connected caller (pending_entry_is_live_call, "
+    "live_call_is_pending_at_its_caller); the reply of the owner of the called object puts exactly CallFunctionReply(n, r) - caller's "
+    "serial, owner's result and payload - into c's queue and clears both tables (owner_reply_delivered); a reply of any other "
+    "connection puts nothing into any queue (foreign_reply_not_delivered). Per handler, every state: no_service, "
+    "owner_reply_forwarded, unknown_reply_ignored, foreign_reply_ignored, abort_answers_once, abort_twice_silent, "
+    "reply_after_abort_is_dropped. Partial: that a pending call IS answered when its service or object is destroyed or its owner "
+    "disconnects (callee side of the invariant), that an abort is answered within the same turn, and absence of panics are decided by "
+    "the correspondence runs (overlapping calls, serial reuse also right after an abort, aborts, destruction, all four disconnect "
+    "modes, mixed versions).", "DESIGN.md section 6 C02 and 10.2")
 CLAIMS["C03"] = _b(
     "Machine-checked proofs (Lean 4), for every broker state, that create/destroy object and create service answer ok / duplicate / "
     "invalid-object / foreign-object exactly by registry state and ownership, register the entity under both keys for the sender, and "
